@@ -64,6 +64,9 @@ func NewCtx(prop, tier string, seed int64, level string) *Ctx {
 
 func (c *Ctx) Quick() bool { return c.Tier != "thorough" }
 
+// IsWorker: this process runs one shard of a check (started by Fork).
+func (c *Ctx) IsWorker() bool { return c.NShards > 0 }
+
 // Watchdog is the generous wall-clock limit of one worker process (quick runs take seconds to two
 // minutes, thorough runs up to a quarter of an hour). It never decides a verdict by itself: a worker
 // that exceeds it is run again, and only two firings in a row are reported, as a hang.
